@@ -9,7 +9,7 @@ from ..algebra import Extractor, Rat, Unsupported
 from ..cfg import CFG
 from ..core import Ctx
 from ..model import body_stmts, canon, dotted, kwarg, norm, walk_no_nested
-from .common import assigned_value, enclosing, prog, resolve_local, stores_to
+from .common import assigned_value, cmp_other, enclosing, is_cmp, prog, resolve_local, stores_to
 
 CG = "Continuum.compute_gamma"
 JOBS = {"_compute_best_alignment_job": "get_best_alignment", "_compute_soft_alignment_job": "get_best_soft_alignment",
@@ -195,11 +195,13 @@ def run(ctx: Ctx):
     prec = f.params[3]
     if second:
         P2 = second[0]
-        ifs = [norm(i.test) for i in enclosing(f.node, P2[1], (ast.If,))]
+        if_nodes = enclosing(f.node, P2[1], (ast.If,))
+        ifs = [norm(i.test) for i in if_nodes]
         req = None
-        for t in ifs:
-            if t.endswith("> n_samples"):
-                req = t[: -len(" > n_samples")]
+        for i_ in if_nodes:
+            x_ = cmp_other(i_.test, "n_samples", "<")          # n_samples < X   (i.e. X > n_samples)
+            if x_ is not None:
+                req = x_
         size = P2[2].args[0] if isinstance(P2[2], ast.Call) and dotted(P2[2].func) == "range" and len(P2[2].args) == 1 else None
         size = resolve_local(f.node, size) if size is not None else None
         ok2 = f"{prec} is not None" in ifs and req is not None and size is not None and norm(size) == f"{req} - n_samples" and len(ifs) == 2
